@@ -242,6 +242,7 @@ Definition iterate_borrow (st : state) (bid : Z) (e : biter) : outcome state :=
   end.
 
 (* ---------- user mapping walks ---------- *)
+Definition is_nil (l : list Z) : bool := match l with [] => true | _ => false end.
 Definition user_lends (st : state) (user : Z) : list lendpos :=
   filter (fun l => l_owner l =? user) (map snd (lends st)).
 Definition has_lend_for (st : state) (user asset poolid : Z) : bool :=
@@ -262,7 +263,7 @@ Definition borrow_id_for_pair (st : state) (user pid : Z) : option Z :=
   end.
 (* CheckIsolatedModeForBorrow *)
 Definition isolated_blocked (st : state) (user asset : Z) : bool :=
-  existsb (fun l => (l_asset l =? asset) && negb (match l_bids l with [] => true | _ => false end)) (user_lends st user).
+  existsb (fun l => (l_asset l =? asset) && negb (is_nil (l_bids l))) (user_lends st user).
 
 (* ---------- keeper.go handlers ---------- *)
 Definition deposit_asset (cfg : config) (st : state) (user lid denom amt ipb : Z) : outcome state :=
@@ -353,7 +354,7 @@ Definition close_lend (cfg : config) (st : state) (user lid ipb : Z) : outcome s
           | None => Panic
           | Some pl =>
               if negb (l_owner l =? user) then Err 3 else
-              if negb (match l_bids l with [] => true | _ => false end) then Err 19 else
+              if negb (is_nil (l_bids l)) then Err 19 else
               if l_avail l >? balance (bnk st1) (p_mod pl) (l_asset l) then Err 13 else
               match zget (c_rates cfg) (l_asset l) with
               | None => Err 6
